@@ -123,3 +123,28 @@ def patterns(values, k):
     """all non-increasing k-vectors over the given values (multiplicity patterns)."""
     vals = sorted(values, reverse=True)
     return [list(c) for c in itertools.combinations_with_replacement(vals, k)]
+
+
+def check_against_tlc(ctx):
+    """compare every reflector built here with the integer matrix Rs = 2^(p-1) I - v v^H that TLC
+    computes in ULib.tla (whose exact unitarity TLC checks as an ASSUME): the exact family used by the
+    spectral checks is then certified by the model checker, entry by entry."""
+    res = ctx.model("ULib", "INIT Init\nNEXT Next\n", dump=True)
+    seen = {}
+    for st in res["states"]:
+        o = st["out"]
+        seen[tuple(o["names"])] = (o["half"], np.array(o["Rs"], dtype=np.float64))
+    n_ok = 0
+    for n, vecs in VECS.items():
+        for names in vecs:
+            key = tuple(names)
+            if key not in seen:
+                raise AssertionError("reflector %r is not in ULib.tla" % (names,))
+            half, Rs = seen[key]
+            R = reflector(qvec(names))
+            if not np.array_equal(R * half, Rs.reshape(R.shape)):
+                raise AssertionError("reflector %r differs from ULib.tla" % (names,))
+            n_ok += 1
+    if n_ok != len(seen):
+        raise AssertionError("ULib.tla has %d reflectors, harness %d" % (len(seen), n_ok))
+    return n_ok
